@@ -12,6 +12,7 @@ struct Problem {
   bool sw[5];          // CoherentRho, NonCoherentRho, OtherRho, GammaScalar, OtherScalar
   int family;          // 0: commuting diagonal operators (time dependent), 1: dense non-commuting, time independent
   double kappa, kappa2;  // time slopes of HI and GammaScalar
+  int sw_order = 0;      // order in which the five Set_*Terms calls are made (see Probe::apply_switches)
   double omega(int ix, int ir) const { return 0.7 + 0.31 * ix - 0.23 * ir + 0.05 * ix * ir; }
   double gam(int ix, int ir) const { return 0.11 + 0.07 * ix + 0.05 * ir; }
   double sig(int ix, int ir) const { return 0.4 - 0.15 * ix + 0.22 * ir; }
@@ -102,7 +103,18 @@ struct Probe : squids::SQuIDS {
   Probe(const Problem& p, double tini) : squids::SQuIDS(p.nx, p.d, p.nrho, p.nsc, tini), P(p) { apply_switches(); }
   Probe(Probe&& o) : squids::SQuIDS(std::move(o)), P(o.P), log(o.log) {}
   Probe& operator=(Probe&& o) { squids::SQuIDS::operator=(std::move(o)); P = o.P; log = o.log; return *this; }
-  void apply_switches() { Set_CoherentRhoTerms(P.sw[0]); Set_NonCoherentRhoTerms(P.sw[1]); Set_OtherRhoTerms(P.sw[2]); Set_GammaScalarTerms(P.sw[3]); Set_OtherScalarTerms(P.sw[4]); }
+  void set_switch(int b, bool v) { switch (b) { case 0: Set_CoherentRhoTerms(v); break; case 1: Set_NonCoherentRhoTerms(v); break; case 2: Set_OtherRhoTerms(v); break; case 3: Set_GammaScalarTerms(v); break; default: Set_OtherScalarTerms(v); } }
+  // The switches are independent settings: the same final values must give the same behaviour whatever the order of the calls.
+  // sw_order 0..4: cyclic order starting at switch k (so every switch is the last one set once); 5..9: the same reversed;
+  // 10: everything switched on first, then the target values; 11: the complement first, then the target values in reverse
+  static const int N_SW_ORDERS = 12;
+  void apply_switches() {
+    int o = P.sw_order;
+    if (o == 10) for (int b = 0; b < 5; b++) set_switch(b, true);
+    if (o == 11) for (int b = 0; b < 5; b++) set_switch(b, !P.sw[b]);
+    if (o >= 10) { for (int q = 0; q < 5; q++) { int b = (o == 10) ? q : 4 - q; set_switch(b, P.sw[b]); } return; }
+    for (int q = 0; q < 5; q++) { int b = (o < 5) ? (o + q) % 5 : ((o - 5) + 5 - q) % 5; set_switch(b, P.sw[b]); }
+  }
   squids::SU_vector HI(unsigned ix, unsigned ir, double t) const override { log.hi++; log.times.push_back(t); log.last_this = this; return mkvec(P.d, ref::basis(P.d).proj(P.HIm(ix, ir, t))); }
   squids::SU_vector GammaRho(unsigned ix, unsigned ir, double t) const override { log.gr++; log.times.push_back(t); log.last_this = this; return mkvec(P.d, ref::basis(P.d).proj(P.Gm(ix, ir, t))); }
   squids::SU_vector InteractionsRho(unsigned ix, unsigned ir, double t) const override { log.ir++; log.times.push_back(t); log.last_this = this; return mkvec(P.d, ref::basis(P.d).proj(P.Pm(ix, ir, t))); }
